@@ -161,6 +161,9 @@ def _judge_model(kind, case, rec, family):
             n_iv += any(kw.values())
             if any(kw.values()) and c == 0:
                 last_kw = kw
+            for name in list(kw):
+                if not kw[name] and rng.random() < 0.5:
+                    del kw[name]         # argument omitted: the function's own default object is used
             try:
                 if c == 0:
                     r = model.sample(int(rng.integers(0, 8)), random_state=None if rng.random() < 0.5 else int(rng.integers(100)), **kw)
